@@ -295,11 +295,11 @@ def handle_seq(ctx: common.Ctx, t: dict[str, Any], res: dict[str, Any], pending:
             continue
         p = ev["probe"]
         ctx.count()
-        ctx.cell(f"a:fault:{label}")
         ctx.cell(f"a:family:{F.FAMILY[f['kind']]}|{ev['cache_mode']}{'|verbose' if ev['verbose'] else ''}")
         ctx.cell(f"a:position|{min(ev['faults_survived_before'], 3)}-faults-survived-before")
         outcome = "died" if p.get("died") else "unresponsive" if p.get("unresponsive") else "survived"
         ctx.cell(f"a:outcome:{outcome}")
+        ctx.cell(f"a:fault:{label}|{outcome}")
         decided = p.get("died") or (p.get("check_cmd") is not None and bool(p["check_cmd"].get("expected_out")))
         if decided:
             nontriv += 1
@@ -344,7 +344,8 @@ def handle_stop(ctx: common.Ctx, t: dict[str, Any], res: dict[str, Any]) -> None
     ctx.nontriv("stop", how, res["after_check"], res["cache_mode"])
     if res.get("names_dead_pid"):
         if how in ("crash-in-command", "malformed-stop"):
-            key = f"status-file-left:{how}:{F.death_site(res.get('log', ''))}"
+            cmd = ((res.get("action") or {}).get("request") or {}).get("command")
+            key = f"status-file-left:after-death:command={cmd if isinstance(cmd, str) else '-'}:{F.death_site(res.get('log', ''))}"
         else:
             key = f"status-file-left:{how}"
         ctx.violation(key, f"daemon process exited ({res.get('how_exited')}) via '{how}' but the status file still names its pid "
